@@ -15,7 +15,7 @@ ASSUMPTIONS = ["NOT with Ra = Rt is documented as unsupported (the checker warns
 
 
 def run(ctx):
-    r = pseudo.check(ctx["seed"], 60000 if ctx["thorough"] else 6000)
+    r = pseudo.check(ctx["seed"], 300000 if ctx["thorough"] else 6000)
     r["distinct_nontrivial"] = r["distinct"]
     r["rule"] = ("(pseudo-op, operands, pre-state) with boundary-biased 16-bit immediates, all register choices incl. R0/Rt/PC_ret/FP/SP, "
                  "all 32 flag settings; every case executes a whole expansion")
